@@ -295,6 +295,7 @@ fn idle_close() -> SimResult {
     }
     let busy = |st: &[FieldState; 3]| st.iter().any(|f| f.keep_alive || f.held_counting > 0 || f.pending_out > 0);
     let mut last_busy_end: Option<Duration> = None; // instant at which the side last stopped being busy
+    let mut busy_start: Option<Duration> = if init_ka { Some(Duration::ZERO) } else { None };
     let mut created_at: Option<Duration> = None;
     let mut close_at: Option<Duration> = None;
     let mut busy_at_close = false;
@@ -350,8 +351,15 @@ fn idle_close() -> SimResult {
         }
         if close_at.is_none() {
             let now_busy = busy(&st);
+            if !was && now_busy {
+                busy_start = Some(at);
+            }
             if was && !now_busy {
-                last_busy_end = Some(at);
+                // A busy period of zero virtual duration (keep-alive switched on and off again before the connection task
+                // could sample connection_keep_alive()) is not observable by any implementation: it does not restart the clock.
+                if busy_start.map(|s| at > s).unwrap_or(true) {
+                    last_busy_end = Some(at);
+                }
                 saw_transition = true;
             }
         }
